@@ -118,10 +118,11 @@ def _ladder(repo, framing, session):
         idx = next((i for i, cs in enumerate(resolved) if any(issubclass(cls, c) for c in cs)),
                    None)
         if idx is None:
-            arms[key] = {'handler': -1, 'bumps': 0, 'closes': 0, 'leaves': 0}
+            arms[key] = {'handler': -1, 'bumps': 0, 'closes': 0, 'leaves': 0, 'unpack': -1}
         else:
             b, c, l = _handler_facts(t.handlers[idx].body)
-            arms[key] = {'handler': idx, 'bumps': b, 'closes': c, 'leaves': l}
+            arms[key] = {'handler': idx, 'bumps': b, 'closes': c, 'leaves': l,
+                         'unpack': _unpack_arity(t.handlers[idx])}
     out['arms'] = arms
     out['catches_generic'] = any(issubclass(Exception, c) for cs in resolved for c in cs)
     # else branch: the received message is handed to _throttled_message / handle_message
@@ -135,6 +136,28 @@ def _ladder(repo, framing, session):
         1 for n in ast.walk(tm) if isinstance(n, ast.Call) and isinstance(n.func, ast.Attribute)
         and n.func.attr == 'handle_message') if tm is not None else 0
     return out
+
+
+def _raise_arities(repo):
+    """number of positional arguments at each `raise <Class>(...)` site in framing.py"""
+    tree = common.parse(repo, FRAMING)
+    out = {}
+    for n in ast.walk(tree):
+        if isinstance(n, ast.Raise) and isinstance(n.exc, ast.Call) and isinstance(n.exc.func, ast.Name):
+            out.setdefault(n.exc.func.id, set()).add(len(n.exc.args))
+    return {k: sorted(v) for k, v in out.items()}
+
+
+def _unpack_arity(handler):
+    """length of the tuple `e.args` is unpacked into inside the handler (-1: not unpacked)"""
+    name = handler.name
+    for st in handler.body:
+        for n in ast.walk(st):
+            if isinstance(n, ast.Assign) and isinstance(n.value, ast.Attribute) and n.value.attr == 'args' \
+                    and isinstance(n.value.value, ast.Name) and n.value.value.id == name \
+                    and len(n.targets) == 1 and isinstance(n.targets[0], (ast.Tuple, ast.List)):
+                return len(n.targets[0].elts)
+    return -1
 
 
 def _bump_increment(session):
@@ -242,6 +265,8 @@ def extract(repo):
         'grid_magic': list(GRID_MAGIC),
         'grid': grid,
         'sample_header': list(sample_header),
+        'sample_frame': list(gf.frame((b'ver', sample_payload))),
+        'raise_arities': _raise_arities(repo),
         'sample_checksum': list(sample_ck),
         'sample_payload': list(sample_payload),
         'ladder': _ladder(repo, framing, session),
@@ -274,13 +299,14 @@ def render(f):
     items = ', '.join(f"({n}, '{c}')" for n, c in f['unpack_items'])
     grid = ',\n  '.join(f'({mp}, {mb}, {lb(h)}, {code})' for mp, mb, h, code in f['grid'])
     lad = f['ladder']
-    arms = lad.get('arms') or {k: {'handler': -1, 'bumps': 0, 'closes': 0, 'leaves': 0}
+    arms = lad.get('arms') or {k: {'handler': -1, 'bumps': 0, 'closes': 0, 'leaves': 0, 'unpack': -1}
                                for k in ('badMagic', 'oversized', 'badChecksum')}
     els = lad.get('else') or {'bumps': 0, 'closes': 0, 'leaves': 0, 'throttled_calls': 0}
     costs = f['costs']
     cost_ok = all(isinstance(v, (int, float)) and v == int(v) and v >= 0 for v in costs.values())
     cost_list = [int(costs[k]) for k in ('badMagic', 'oversized', 'badChecksum')] if cost_ok else []
     single = lambda xs: xs[0] if len(xs) == 1 else []
+    ar = lambda k: f['raise_arities'].get(k, [])
     return (
         '/-! GENERATED by tools/facts/c07.py from /repo on every run - do not edit. -/\n'
         'namespace Aiorpcx.Facts.C07\n'
@@ -320,6 +346,8 @@ def render(f):
         f'def grid : List (Nat × Nat × List UInt8 × Nat) := [\n  {grid}]\n'
         f'/-- `BitcoinFramer(magic=gridMagic)._build_header(b"ver", samplePayload)` -/\n'
         f'def sampleHeader : List UInt8 := {lb(f["sample_header"])}\n'
+        f'/-- `BitcoinFramer(magic=gridMagic).frame((b"ver", samplePayload))` -/\n'
+        f'def sampleFrame : List UInt8 := {lb(f["sample_frame"])}\n'
         f'def samplePayload : List UInt8 := {lb(f["sample_payload"])}\n'
         f'def sampleChecksum : List UInt8 := {lb(f["sample_checksum"])}\n'
         f'/-- `MessageSession._process_messages_loop`: the try around `recv_message()` was found,\n'
@@ -332,6 +360,11 @@ def render(f):
         f'def armBadMagic : Int × Nat × Nat × Nat := {_arm(arms["badMagic"])}\n'
         f'def armOversized : Int × Nat × Nat × Nat := {_arm(arms["oversized"])}\n'
         f'def armBadChecksum : Int × Nat × Nat × Nat := {_arm(arms["badChecksum"])}\n'
+        f'/-- per class: (numbers of arguments at its `raise` sites in framing.py, length of the\n'
+        f'    tuple the handler unpacks `e.args` into, -1 if it does not) -/\n'
+        f'def argsBadMagic : List Nat × Int := ({ar("BadMagicError")}, {arms["badMagic"].get("unpack", -1)})\n'
+        f'def argsOversized : List Nat × Int := ({ar("OversizedPayloadError")}, {arms["oversized"].get("unpack", -1)})\n'
+        f'def argsBadChecksum : List Nat × Int := ({ar("BadChecksumError")}, {arms["badChecksum"].get("unpack", -1)})\n'
         f'/-- else branch: (bumps, closes, leaves, calls of `_throttled_message`) -/\n'
         f'def armElse : Nat × Nat × Nat × Nat := ({els["bumps"]}, {els["closes"]}, {els["leaves"]}, {els["throttled_calls"]})\n'
         f'def throttledCallsHandleMessage : Nat := {lad.get("throttled_calls_handle_message", 0)}\n'
